@@ -72,7 +72,7 @@ album.txt
 ";
 
 #[derive(Clone, Copy, Debug, PartialEq)]
-enum Act { VerseA, VerseB, RefrainS, Build, BuildPoem, Clean, CleanStanza, TamperStanza, DeleteStanza, DropCacheEntryOfStanza, HiddenGone, HiddenBack }
+enum Act { VerseA, VerseB, RefrainS, Build, BuildPoem, Clean, CleanStanza, TamperStanza, DeleteStanza, DropCacheEntryOfStanza, HiddenGone, HiddenBack, NoteLikeVerseA, CleanAside }
 const ACTS : [Act; 12] = [Act::VerseA, Act::VerseB, Act::RefrainS, Act::Build, Act::BuildPoem, Act::Clean, Act::CleanStanza, Act::TamperStanza, Act::DeleteStanza, Act::DropCacheEntryOfStanza, Act::HiddenGone, Act::HiddenBack];
 
 fn params(goal: Option<&str>) -> BuildParams { BuildParams::from_all(".ruler".to_string(), vec!["build.rules".to_string()], None, goal.map(|s| s.to_string())) }
@@ -140,6 +140,7 @@ fn run_history(h: &Vec<Act>, drop_table: bool) -> Outcome
             Act::VerseA => { write_str_to_file(&mut system, "verse.txt", "Roses are red.\n").unwrap(); },
             Act::VerseB => { write_str_to_file(&mut system, "verse.txt", "Violets are blue.\n").unwrap(); },
             Act::RefrainS => { write_str_to_file(&mut system, "refrain.txt", "Sha la la.\n").unwrap(); },
+            Act::NoteLikeVerseA => { write_str_to_file(&mut system, "note.txt", "Roses are red.\n").unwrap(); },
             Act::HiddenGone => { if system.is_file("hidden.txt") { system.remove_file("hidden.txt").unwrap(); } },
             Act::HiddenBack => { write_str_to_file(&mut system, "hidden.txt", "(hidden)\n").unwrap(); },
             Act::TamperStanza => { write_str_to_file(&mut system, "stanza.txt", "tampered\n").unwrap(); stanza_settled = None; },
@@ -206,10 +207,10 @@ fn run_history(h: &Vec<Act>, drop_table: bool) -> Outcome
                 }
                 last_was_ok_build = ok && goal.is_none();
             },
-            Act::Clean | Act::CleanStanza =>
+            Act::Clean | Act::CleanStanza | Act::CleanAside =>
             {
                 is_ruler = true;
-                let goal = if *a == Act::CleanStanza { Some("stanza.txt".to_string()) } else { None };
+                let goal = if *a == Act::CleanStanza { Some("stanza.txt".to_string()) } else if *a == Act::CleanAside { Some("aside.txt".to_string()) } else { None };
                 let _ = clean(system.clone(), ".ruler", vec!["build.rules".to_string()], goal);
             },
         }
@@ -293,6 +294,10 @@ fn verif_build_long_histories()
         vec![Build, VerseB, Build, TamperStanza, VerseA, Build],
         vec![Build, VerseB, Build, DeleteStanza, VerseA, Build, VerseB, Build],
         vec![HiddenGone, Build, Build, HiddenBack, Build, Build],
+        /*  two targets written in one tick, one of them with the bytes another target had before; then clean and revert (C18, coarse clock) */
+        vec![Build, VerseB, NoteLikeVerseA, Build, CleanAside, VerseA, Build],
+        vec![Build, VerseB, NoteLikeVerseA, Build, CleanAside, VerseA, BuildPoem],
+        vec![Build, VerseB, NoteLikeVerseA, Build, Clean, VerseA, Build],
         vec![Build, HiddenGone, VerseB, Build, HiddenBack, Build],
     ];
     let names = ["B-build-C01", "B-build-C02", "B-build-C04", "B-build-C07", "B-build-C08", "B-build-C09", "B-build-C18"];
